@@ -103,7 +103,7 @@ def main(ck):
     ck.cov["trusted_base"] = ["Coq 8.16.1 kernel + vm_compute (cases evaluation, Example)", "no axioms (Print Assumptions: closed)",
                               "Go harness cmd/c14, python driver props/C14/run.py"]
     ck.coq_audit(["C14"])
-    ok = ck.coq_build(["C14/Proofs.vo", "C14/Inv.vo", "C14/Corr.vo", "C14/XCorr.vo", "C14/XProofs.vo", "C14/XInv.vo", "C14/XNode.vo", "C14/XAgree.vo", "C14/XAgreeIx.vo", "C14/LK.vo", "C14/XGuard.vo", "C14/TTL.vo"])
+    ok = ck.coq_build(["C14/Proofs.vo", "C14/Inv.vo", "C14/Corr.vo", "C14/XCorr.vo", "C14/XProofs.vo", "C14/XInv.vo", "C14/XNode.vo", "C14/XAgree.vo", "C14/XAgreeIx.vo", "C14/LK.vo", "C14/XGuard.vo", "C14/TTL.vo", "C14/Mono.vo"])
     if ok:
         ck.coq_props(["C14/Props.v", "C14/Refuted.v"])
         if ck.tier == "thorough":
